@@ -216,6 +216,93 @@ theorem handleAction_ok (T : Tables) (D : DTables) (N : NodeIf ν κ J) (reply :
     · cases h
   · cases h
 
+theorem modReply_secop {a : Bytes} {s : Option Bytes} {m : ModResult J} {c : Bytes}
+    (h : modReply a s m = .secop c) : m = .secop c := by
+  cases m with
+  | ok j => simp [modReply] at h
+  | secop c' => simp only [modReply, DispResult.secop.injEq] at h; rw [h]
+  | exc => simp [modReply] at h
+
+/-- the SECoP errors the node and its modules raise carry class names out of `classes` -/
+structure NodeClasses (classes : List Bytes) (N : NodeIf ν κ J) : Prop where
+  describe : ∀ s c, N.describe s = .secop c → c ∈ classes
+  activate : ∀ s c, N.activateCheck s = some c → c ∈ classes
+  logging : ∀ s d c, N.logging s d = .secop c → c ∈ classes
+  read : ∀ nu m p c, (N.read nu m p).1 = .secop c → c ∈ classes
+  change : ∀ nu m p v c, (N.change nu m p v).1 = .secop c → c ∈ classes
+  exec : ∀ nu m p v c, (N.exec nu m p v).1 = .secop c → c ∈ classes
+
+/-- a SECoP error coming out of a handler is the dispatcher's own `ProtocolError` or was raised by the node -/
+theorem handleAction_secop (T : Tables) (D : DTables) (N : NodeIf ν κ J) (classes : List Bytes) (hN : NodeClasses classes N)
+    (hp : D.protocolError ∈ classes) (reply : Bytes) (nu : ν) (t : Triple J) (c : Bytes)
+    (h : (handleAction T D N reply nu t).1 = .secop c) : c ∈ classes := by
+  have own : ∀ {x : Bytes}, DispResult.secop (J := J) D.protocolError = .secop x → x ∈ classes := by
+    intro x hx; cases hx; exact hp
+  by_cases h1 : t.action = T.helpRequest
+  · unfold handleAction at h
+    rw [if_pos h1] at h
+    cases h
+  by_cases h2 : t.action = T.describeRequest
+  · unfold handleAction at h
+    rw [if_neg h1, if_pos h2] at h
+    exact hN.describe _ c (modReply_secop h)
+  by_cases h3 : t.action = D.pingRequest
+  · unfold handleAction at h
+    rw [if_neg h1, if_neg h2, if_pos h3] at h
+    split at h
+    · exact own h
+    · cases h
+  by_cases h4 : t.action = D.readRequest
+  · unfold handleAction at h
+    rw [if_neg h1, if_neg h2, if_neg h3, if_pos h4] at h
+    split at h
+    · exact own h
+    · exact hN.read _ _ _ c (modReply_secop h)
+  by_cases h5 : t.action = D.writeRequest
+  · unfold handleAction at h
+    rw [if_neg h1, if_neg h2, if_neg h3, if_neg h4, if_pos h5] at h
+    split at h
+    · exact own h
+    · exact hN.change _ _ _ _ c (modReply_secop h)
+  by_cases h6 : t.action = D.commandRequest
+  · unfold handleAction at h
+    rw [if_neg h1, if_neg h2, if_neg h3, if_neg h4, if_neg h5, if_pos h6] at h
+    split at h
+    · exact own h
+    · split at h
+      · exact own h
+      · exact hN.exec _ _ _ _ c (modReply_secop h)
+  by_cases h7 : t.action = D.activateRequest
+  · unfold handleAction at h
+    rw [if_neg h1, if_neg h2, if_neg h3, if_neg h4, if_neg h5, if_neg h6, if_pos h7] at h
+    split at h
+    · exact own h
+    · split at h
+      · cases h
+      · split at h
+        · rename_i cls hcls
+          cases h
+          exact hN.activate _ _ hcls
+        · cases h
+  by_cases h8 : t.action = D.deactivateRequest
+  · unfold handleAction at h
+    rw [if_neg h1, if_neg h2, if_neg h3, if_neg h4, if_neg h5, if_neg h6, if_neg h7, if_pos h8] at h
+    split at h
+    · exact own h
+    · cases h
+  by_cases h9 : t.action = D.loggingRequest
+  · unfold handleAction at h
+    rw [if_neg h1, if_neg h2, if_neg h3, if_neg h4, if_neg h5, if_neg h6, if_neg h7, if_neg h8, if_pos h9] at h
+    split at h
+    · cases h
+    · rename_i c' hc'
+      cases h
+      exact hN.logging _ _ _ hc'
+    · cases h
+  · unfold handleAction at h
+    rw [if_neg h1, if_neg h2, if_neg h3, if_neg h4, if_neg h5, if_neg h6, if_neg h7, if_neg h8, if_neg h9] at h
+    cases h
+
 /-- **dispatch_reply_fits** — every positive reply of the dispatcher belongs to the request: the reply
 action `REQUEST2REPLY` gives (or the identification reply) and the request's specifier -/
 theorem dispatch_reply_fits (T : Tables) (D : DTables) (N : NodeIf ν κ J) (st : ν × κ) (t r : Triple J)
@@ -237,6 +324,28 @@ theorem dispatch_reply_fits (T : Tables) (D : DTables) (N : NodeIf ν κ J) (st 
       · exact Or.inl h2
       · exact Or.inr (Or.inr ⟨ha, hs, hr⟩)
 
+
+/-- **dispatch_answers** — the dispatcher model does its part of "the reply belongs to the request" for every node whose
+errors carry class names of errors.py: positive replies fit (`dispatch_reply_fits`), raised classes are known -/
+theorem dispatch_answers (T : Tables) (D : DTables) (N : NodeIf ν κ J) (hN : NodeClasses T.errorClasses N)
+    (hp : D.protocolError ∈ T.errorClasses) : DispAnswers T (dispatch T D N) := by
+  intro st t
+  cases hr : (dispatch T D N st t).1.res with
+  | ok r => exact dispatch_reply_fits T D N st t r hr
+  | secop c =>
+    simp only [dispatch] at hr
+    show c ∈ T.errorClasses
+    by_cases hid : t.action = T.identRequest
+    · simp only [hid, ↓reduceIte] at hr
+      cases hr
+    · simp only [hid, ↓reduceIte] at hr
+      cases hl : T.request2reply.lookup t.action with
+      | none => simp only [hl, DispResult.secop.injEq] at hr; rw [← hr]; exact hp
+      | some reply =>
+        simp only [hl] at hr
+        exact handleAction_secop T D N T.errorClasses hN hp reply st.1 t c hr
+  | exc => trivial
+  | garbage => trivial
 
 /-- the node hands only finite data (no NaN, no ±Infinity) to the dispatcher, and `logging` accepts
 only finite levels -/
